@@ -30,7 +30,7 @@ SPEC = {
              "(1, 100, 1024, 4096, half, one less) / at it / above it x bounds that mostly take the delivery beyond one pass (passes 2-3, limit above the number of "
              "entries, both, none; single pass and small limits as controls) x chosencases (none in three of four, else tags of the file's entries) x 1-3 ammo held at once; "
              "preload off and on. Non-trivial = a selected entry is long (or carries a long header) and more is delivered than one pass holds."),
-    "floors": {"TestPreloadEquivalence/proper_subset": 0.15, "TestPreloadEquivalence/filter_x_limit": 0.08,
+    "floors": {"TestPreloadEquivalence/file_on_os_file_system_bounded_run_must_end_nil": 0.1, "TestPreloadEquivalence/proper_subset": 0.15, "TestPreloadEquivalence/filter_x_limit": 0.08,
                "TestPreloadEquivalence/filter_x_passes": 0.08, "TestPreloadEquivalence/limit_hit_with_filter": 0.03,
                "TestPreloadEquivalence/date_middleware": 0.13, "TestPreloadEquivalence/date_middleware_entry_redelivered": 0.094,
                "TestPreloadEquivalence/date_middleware_redelivered_entry_has_headers": 0.07,
